@@ -140,6 +140,10 @@ struct ExecSummary {
 }
 
 fn run_mutex(c: &MutexCase) -> Result<ExecSummary, Failure> {
+    if shim::leaked_stacks() > 40_000 {
+        // too many abandoned executions in this process (a livelocking build): stop exploring
+        return Ok(ExecSummary { stats: ExecStats::default(), trace_hash: 0, budget_hit: true, try_fail: 0, try_ok: 0 });
+    }
     let mutex = Rc::new(Mutex::new(Tracked::new(0)));
     let mon = Rc::new(Monitor::new());
     let mut bodies: Vec<Box<dyn FnOnce() + 'static>> = Vec::new();
@@ -215,6 +219,10 @@ fn run_mutex(c: &MutexCase) -> Result<ExecSummary, Failure> {
 }
 
 fn run_rw(c: &RwCase) -> Result<ExecSummary, Failure> {
+    if shim::leaked_stacks() > 40_000 {
+        // too many abandoned executions in this process (a livelocking build): stop exploring
+        return Ok(ExecSummary { stats: ExecStats::default(), trace_hash: 0, budget_hit: true, try_fail: 0, try_ok: 0 });
+    }
     let lock = Rc::new(RwLock::new(Tracked::new(0)));
     let mon = Rc::new(Monitor::new());
     let mut bodies: Vec<Box<dyn FnOnce() + 'static>> = Vec::new();
